@@ -12,8 +12,10 @@ git apply --whitespace=nowarn $SRC/patch.diff || { echo "RESULT $ID patch-does-n
 cargo build --offline --features parallel >/dev/null 2>&1 && B=compiles || B=DOES-NOT-COMPILE
 cargo nextest run --workspace --no-fail-fast --test-threads 8 --offline > $W/_suite.log 2>&1; tail -3 $W/_suite.log | grep -q "75 passed" && S="suite-75-pass" || S="SUITE-FAILS($(grep -E 'Summary' $W/_suite.log | tail -1))"
 cp $SRC/$DEMO tests/seed_demo.rs
-cargo test --offline --test seed_demo > $W/_demo_with.log 2>&1 && DW="DEMO-PASSES-WITH-CHANGE" || DW="demo-fails-with-change"
+FEAT=""; grep -q 'cfg(feature = "parallel")' tests/seed_demo.rs && FEAT="--features parallel"
+cargo test --offline $FEAT --test seed_demo > $W/_demo_with.log 2>&1 && DW="DEMO-PASSES-WITH-CHANGE" || DW="demo-fails-with-change"
+grep -q "running 0 tests" $W/_demo_with.log && DW="DEMO-RAN-0-TESTS"
 git apply -R --whitespace=nowarn $SRC/patch.diff
-cargo test --offline --test seed_demo > $W/_demo_without.log 2>&1 && DO="demo-passes-without-change" || DO="DEMO-FAILS-WITHOUT-CHANGE"
+cargo test --offline $FEAT --test seed_demo > $W/_demo_without.log 2>&1 && DO="demo-passes-without-change" || DO="DEMO-FAILS-WITHOUT-CHANGE"
 echo "RESULT $ID $B $S $DW $DO"
 cd /; git -C /repo worktree remove --force $W
